@@ -19,7 +19,7 @@ import (
 func init() {
 	register(&Check{
 		ID: "C13", Level: "exploration", QuickSecs: 200, ThoroughSecs: 1800,
-		Rule:        "inputs to the real main() (hook main mode; stdin/file and stdout/-o alternate): (a) every text printed from the reference ASTs over ALL expression kinds (incl. throw, recovery, code predicates, state blocks, undefined and unused rules) up to 3 nodes x all 32 combinations of -optimize-parser -optimize-grammar -optimize-basic-latin -support-left-recursion -cache, plus -x, -nolint and valid/invalid -alternate-entrypoints; (e) EVERY class text of <= 3 (thorough 4) pieces from plain runes, - ^, escapes and Unicode classes (trailing and doubled hyphens, descending ranges included), with and without i, alone and next to a mergeable class x 4 flag sets; (g) all pairs of two-alternative bodies over 8 alternatives with self and mutual references (SCCs with and without a leader) x {-, -support-left-recursion, +-optimize-grammar}; (f) every reference graph over four rules with leaf, chain and self-recursive bodies x 3 flag sets with -optimize-grammar; (d) 3-rule reference graphs with mutually dependent nullability (A <- w(B) / w(C) / end, B and C aliases of A; 3750 grammars x 4 flag sets) through the analysis and builder; (b) every single-token edit (delete, duplicate, replace by each of 34 tokens) of a 40-text corpus covering the whole syntax x 2 flag sets (thorough 4); (c) EVERY byte string up to length 2 over all 256 bytes and up to length 3 over the 22 grammar-significant bytes (thorough: 3 and 4) x 4 flag sets. Oracle: main() returns (10 s watchdog, re-run before believed), no Go panic escapes, exit 0 => stdout is a complete Go file (go/parser accepts it) and stderr is empty, exit != 0 => a diagnostic on stderr, a text the front-end rejects never exits 0, -x never writes a parser. A stratified subset is replayed through the real pigeon binary (same exit status, no goroutine trace). Non-trivial = texts that are accepted (exit 0) or rejected by the builder rather than the front-end. Plus (f) a case sweep (every cased rune as i-literal, inside a longer i-literal, in i-classes; 3 flag sets), (g) dense first-call graphs (n rules all beginning with all n rules, n <= 8; thorough n <= 11: finding D36); every 10th main-mode case writes to an -o target that already exists with 400 KB of stale content.",
+		Rule:        "inputs to the real main() (hook main mode; stdin/file and stdout/-o alternate): (a) every text printed from the reference ASTs over ALL expression kinds (incl. throw, recovery, code predicates, state blocks, undefined and unused rules) up to 3 nodes x all 32 combinations of -optimize-parser -optimize-grammar -optimize-basic-latin -support-left-recursion -cache, plus -x, -nolint and valid/invalid -alternate-entrypoints; (e) EVERY class text of <= 3 (thorough 4) pieces from plain runes, - ^, escapes and Unicode classes (trailing and doubled hyphens, descending ranges included), with and without i, alone and next to a mergeable class x 4 flag sets; (g) all pairs of two-alternative bodies over 8 alternatives with self and mutual references (SCCs with and without a leader) x {-, -support-left-recursion, +-optimize-grammar}; (f) every reference graph over four rules with leaf, chain and self-recursive bodies x 3 flag sets with -optimize-grammar; (d) 3-rule reference graphs with mutually dependent nullability (A <- w(B) / w(C) / end, B and C aliases of A; 3750 grammars x 4 flag sets) through the analysis and builder; (b) every single-token edit (delete, duplicate, replace by each of 34 tokens) of a 40-text corpus covering the whole syntax x 2 flag sets (thorough 4); (c) EVERY byte string up to length 2 over all 256 bytes and up to length 3 over the 22 grammar-significant bytes (thorough: 3 and 4) x 4 flag sets. Oracle: main() returns (10 s watchdog, re-run before believed), no Go panic escapes, exit 0 => stdout is a complete Go file (go/parser accepts it) and stderr is empty, exit != 0 => a diagnostic on stderr, a text the front-end rejects never exits 0, -x never writes a parser. A stratified subset is replayed through the real pigeon binary (same exit status, no goroutine trace). Non-trivial = texts that are accepted (exit 0) or rejected by the builder rather than the front-end. Plus (f) a case sweep (every cased rune as i-literal, inside a longer i-literal, in i-classes; 3 flag sets), (g) dense first-call graphs (n rules all beginning with all n rules, n <= 8; thorough n <= 11: finding D36), (i) nested groups (a literal inside 1..10 pairs of parentheses, thorough 12 and 18: finding D41; four times the depth with -cache); every 10th main-mode case writes to an -o target that already exists with 400 KB of stale content.",
 		Assumptions: []string{"exit() mocked inside the hook server; a sample is replayed through the real binary", "no wall-clock oracle: only a hang >10 s is reported"},
 		Run:         runC13,
 	})
@@ -52,6 +52,13 @@ func (x *c13ctx) call(text []byte, argv []string, note string) {
 			// size of a strongly connected component (matcher: this family, 9 or more rules)
 			if n, _ := strconv.Atoi(strings.TrimPrefix(note, "dense first-call graph n=")); n >= 9 { // (9 rules: 2.3 s on an idle machine, beyond the watchdog on a loaded one)
 				known = "dense-cycle-enumeration"
+			}
+		}
+		if strings.HasPrefix(note, "nested groups depth=") && strings.Contains(desc, "does not terminate") {
+			// finding D41: the front-end backtracks over every nesting level of parentheses (about
+			// twice the time per level without -cache); matcher: this family, depth 16 or more, no -cache
+			if d, _ := strconv.Atoi(strings.TrimPrefix(note, "nested groups depth=")); d >= 16 && !strings.Contains(strings.Join(argv, " "), "-cache") {
+				known = "nested-group-backtracking"
 			}
 		}
 		c.Report(Violation{Desc: desc, Grammar: string(text), InputHex: hexOf(text), Gen: strings.Join(argv, " "), Opts: note}, known)
@@ -284,6 +291,25 @@ func runC13(c *ShardCtx) {
 			c.Res.Grammars++
 			x.call([]byte(sb.String()), nil, fmt.Sprintf("dense first-call graph n=%d", n))
 			x.call([]byte(sb.String()), []string{"-support-left-recursion"}, fmt.Sprintf("dense first-call graph n=%d", n))
+		}
+	}
+	// (i) nested groups: a literal inside d pairs of parentheses (valid, a few dozen bytes); with
+	// -cache the front-end is linear, without it the time doubles per level (depth 12: 0.6 s, 14:
+	// 2.5 s, 18: 40 s - finding D41, thorough tier only); depth 40 with -cache must be instant
+	{
+		depths := []int{1, 2, 4, 8, 10}
+		if c.Thorough() {
+			depths = append(depths, 12, 18)
+		}
+		for _, d := range depths {
+			idx++
+			if !c.Mine(idx) {
+				continue
+			}
+			text := []byte("A <- " + strings.Repeat("(", d) + "'a'" + strings.Repeat(")", d) + "\n")
+			c.Res.Grammars++
+			x.call(text, nil, fmt.Sprintf("nested groups depth=%d", d))
+			x.call([]byte("A <- "+strings.Repeat("(", 4*d)+"'a'"+strings.Repeat(")", 4*d)+"\n"), []string{"-cache"}, fmt.Sprintf("nested groups depth=%d", 4*d))
 		}
 	}
 	// (h) code block texts through the BUILDER: every body of <= 2 items of C03's code block lexer
